@@ -834,6 +834,39 @@ class Engine:
             raise Unsupported("non-trivial module constant")
         return outs[0].val
 
+    def class_object(self, cname):
+        """the class itself as a heap object (holder of its mutable class variables, declared in the sidecar as the
+        shape '<Class>$cls'): one object per class, allocated before the verified call"""
+        sh = cname + "$cls"
+        if sh not in self.R.shapes:
+            raise Unsupported("class %s has mutable class variables but no shape %s in the sidecar" % (cname, sh))
+        t = z3.Int("clsobj!%s" % cname)
+        entry = self.frames[0].old.alloc if self.frames and getattr(self.frames[0], "old", None) is not None else None
+        v = V(Kind("ref", sh), t)
+        c = t >= 1
+        if entry is not None:
+            c = z3.And(c, t <= entry)
+        tc = self.type_constraint(v)
+        if tc is not None:
+            c = z3.And(c, tc)
+        self.add_axiom(c)
+        self.__dict__.setdefault("class_objs", {})[cname] = v
+        return v
+
+    def class_var_read(self, st, cname, attr):
+        """None if attr is not a mutable class variable of cname, else the outs of reading it"""
+        try:
+            owner = self.P.class_var(cname, attr)
+        except frontend.MissingTarget:
+            owner = None
+        if owner is None:
+            return None
+        co = self.class_object(owner.name)
+        fk = self.R.field_kind(co.kind[1], attr, self.P)
+        if fk is None:
+            raise Unsupported("class variable %s.%s is not declared in the shape %s" % (owner.name, attr, co.kind[1]))
+        return [Out("ok", self.assume_valid_ref(s2, v), v) for s2, v in self.read_field(st, co, attr, fk)]
+
     def _is_repo_class(self, name):
         try:
             self.P.find_class(name)
@@ -869,6 +902,9 @@ class Engine:
                 if getattr(c, "is_property", False):
                     return self.call_method(st, b, attr, [], {})
                 return [Out("ok", st, V(FN, ("bound", b, attr)))]
+            cv = self.class_var_read(st, cls, attr)
+            if cv is not None:
+                return cv
             try:
                 cc, cexpr = self.P.class_const(cls, attr)
             except frontend.MissingTarget:
@@ -883,6 +919,9 @@ class Engine:
             return [self.raise_(st, "AttributeError", "None.%s" % attr)]
         if t == "type":
             cname = b.t
+            cv = self.class_var_read(st, cname, attr) if self._is_repo_class(cname) else None
+            if cv is not None:
+                return cv
             try:
                 cc, cexpr = self.P.class_const(cname, attr)
             except frontend.MissingTarget:
@@ -1614,6 +1653,13 @@ class Engine:
             return [Out("ok", s)]
         if isinstance(tgt, ast.Attribute):
             def k(s, b):
+                if b.kind.tag == "type" and self._is_repo_class(b.t):
+                    # cls.X = v : a class variable (the subclass-shadowing case is outside the subset: `cls` is
+                    # taken to be the class that declares X)
+                    owner = self.P.class_var(b.t, tgt.attr)
+                    if owner is None:
+                        raise Unsupported("assignment to class attribute %s.%s" % (b.t, tgt.attr))
+                    b = self.class_object(owner.name)
                 if b.kind.tag != "ref":
                     if b.kind.tag == "none":
                         return [self.raise_(s, "AttributeError", "assignment to None.%s" % tgt.attr)]
